@@ -4,6 +4,7 @@ import Qentem.Proofs.Mem
 import Qentem.Proofs.SeqArray
 import Qentem.Proofs.SeqString
 import Qentem.Proofs.SeqStream
+import Qentem.Proofs.SeqAlias
 /-! C14 — Array, String, StringStream and StringView behave as plain sequences; the byte-copy and
 zero-fill primitives give identical results for every length in scalar, SSE2 and AVX2 builds. -/
 namespace Qentem.Props.C14
@@ -171,6 +172,10 @@ theorem stream_self_append_no_realloc (P : Policy) (hP : P.Sound) (s : StreamM) 
     (s.appendStream P s.data).data = s.data ++ s.data ∧
     (s.appendStream P s.data).cap = (s.expect P s.data.length).cap :=
   ⟨by simp, StreamM.appendStream_no_realloc P hP s s.data⟩
+
+/-- `a += a` in the explicit-heap model of `Array::operator+=(const Array&)` (pointer-level order of
+effects of the current code): for every content and capacity no fault, result `l ++ l`, no stray item. -/
+theorem array_self_append_heap_level : Qentem.SeqAlias.PatchedSelfAppend := Qentem.SeqAlias.patched_self_append
 
 /-! ### `==` is equality of contents -/
 theorem isEqual_iff : ∀ (l r : List Nat), isEqual l r = true ↔ l = r
